@@ -42,17 +42,9 @@ class HS(dict):
         try: return s["." + name]
         except KeyError: raise AttributeError(name)
 def ctor_env(made=None):
-    """stand-ins for the expression constructors: each call builds a sample expression of that kind"""
-    def mk(kind):
-        def ctor(*a, nodes=None, rule_name="", root=False, **kw):
-            e = HS({".kind": kind, ".nodes": list(nodes) if nodes is not None else (list(a[0]) if a and isinstance(a[0], (list, tuple)) else list(a)), ".rule_name": rule_name, ".root": root, ".suppress": False, ".made_by_code": True})
-            for k_, v_ in kw.items(): e["." + k_] = v_
-            if made is not None: made.append(e)
-            return e
-        return pyeval.PyFn(ctor)
-    d = {k: mk(k) for k in ("Sequence", "OrderedChoice", "OneOrMore", "ZeroOrMore", "Optional", "UnorderedGroup", "Not", "And")}
-    d.update({k: type_of(k) for k in ("StrMatch", "RegExMatch")})        # the match classes: one object is the class (type(x) is StrMatch) and its constructor
-    return d
+    """stand-ins for the expression constructors: each name is the class object of that kind (type(x) is Sequence holds for a
+    sample Sequence) and, called, builds a sample expression of that kind marked as made by the interpreted code"""
+    return {k: type_of(k) for k in ("Sequence", "OrderedChoice", "OneOrMore", "ZeroOrMore", "Optional", "UnorderedGroup", "Not", "And", "StrMatch", "RegExMatch")}
 class MM(dict):
     """sample meta-model: subscript / `in` by rule name, iteration over the classes (as TextXMetaModel does)"""
     def __iter__(s): return iter(list(dict.values(s)))
@@ -66,7 +58,10 @@ def type_of(kind):
             if isa(_k, "Match"):            # what Arpeggio's Match classes keep: the pattern, its display text, a compile step
                 if _k == "RegExMatch": kw.setdefault("to_match_regex", kw.get("to_match")); kw["to_match"] = kw.get("str_repr") or kw.get("to_match")
                 kw.setdefault("ignore_case", None); kw.setdefault("compile", pyeval.PyFn(lambda: None))
-            return E(_k, *(list(nodes) if nodes is not None else list(a)), rule_name=rule_name, root=root, **kw)
+            if a and nodes is None and len(a) == 1 and isinstance(a[0], (list, tuple)) and not isa(_k, "Match"): a = tuple(a[0])        # Sequence([a, b])
+            e_ = E(_k, *(list(nodes) if nodes is not None else list(a)), rule_name=rule_name, root=root, **kw)
+            e_[".made_by_code"] = True
+            return e_
         _TYPES[kind] = pyeval.PyFn(ctor)
     return _TYPES[kind]
 def type_env():
